@@ -4,3 +4,4 @@ import CatiiModel.Gen.Consts
 import CatiiModel.Kernels
 import CatiiModel.Indx
 import CatiiModel.Cube
+import CatiiModel.IIndex
